@@ -120,6 +120,20 @@ def coq_compare(ctx, qruns, rruns):
     return None
 
 
+def history_sweep(ctx, n):
+    """the composed codec built along n construction histories (containers x instantiation order x points at which the
+    simulator already existed), judged against the Python copy of the spec after every construction step."""
+    py4hw = common.quiet_import()
+    for k, hist in enumerate(L.history_cases(random.Random(ctx.seed * 300007 + 11), n)):
+        res = L.run_codec_history(py4hw, hist)
+        ctx.count(('hist', hist['container'], hist['order'], hist['sim_points'], tuple(hist['pattern'])), n=max(res['cycles'], 1))
+        if k < 1: ctx.sample({'construction_history': {x: hist[x] for x in ('container', 'order', 'sim_points', 'pattern')}, 'log': res['log'][:4]})
+        if res['bad']:
+            return L.hist_replay(res)
+    ctx.notes['construction_histories'] = n
+    return None
+
+
 def structured_search(ctx, budget_cases):
     """impl vs the Python spec only (no Coq): exhaustive short digit strings for every command, boundary values,
     every terminator after every prefix letter, long random streams."""
@@ -204,7 +218,9 @@ def run(ctx):
     for x in (qruns, rruns):
         if isinstance(x, tuple) and found is None: found = x[1]
     if isinstance(qruns, tuple): qruns = []
-    ctx.log('real-block sweeps: %s' % ('impl != spec' if found else 'impl = python copy of the spec'))
+    if found is None:
+        found = history_sweep(ctx, 32 if q else 320)
+    ctx.log('real-block sweeps + construction histories: %s' % ('impl != spec' if found else 'impl = python copy of the spec'))
     if found is None and have_model:
         try:
             res = None
